@@ -463,21 +463,57 @@ def _num_text(v):
     return None
 
 
-ALT_FILTERS = (
-    ('logicals-counted', lambda v: (int(v) if isinstance(v, bool) else ref.strict(v))),
-    ('numeric-text-counted', lambda v: (_num_text(v) if isinstance(v, str) else ref.strict(v))),
-    ('blanks-counted-as-0', lambda v: (0 if v is None else ref.strict(v))),
-    ('text-counted-as-0', lambda v: (0 if isinstance(v, str) else ref.strict(v))),
-    ('non-numbers-counted-as-0', lambda v: (v if ref.is_numeric(v) else 0)),
-    ('logicals-and-numeric-text-counted',
-     lambda v: (int(v) if isinstance(v, bool) else _num_text(v) if isinstance(v, str) else ref.strict(v))),
-)
+PROBE_KINDS = (('logical', True), ('numeric-text', '3'), ('blank', None), ('text', 'x'))
+_BATTERY = {}
+
+
+def battery(func):
+    """Which kinds of non-numeric cell disturb pycel's FUNC on a fixed set of probe ranges.
+
+    Used only to *name* a deviation that was already detected: the answer depends on the
+    implementation alone, not on the failing input, so one defect ("logicals are counted") gets
+    one key whatever else the failing range happened to contain.  Returns 'plain-numbers' when the
+    function is already wrong on numbers only, else 'kind+kind' (possibly '')."""
+    if func not in _BATTERY:
+        def deviates(row):
+            if func == 'SUMPRODUCT':
+                ranges = [(row,), ((1,) * len(row),)]
+                want = ref.sumproduct(ranges)
+            else:
+                ranges = [(row,)]
+                want = ref.value(func, ranges)
+            out = lib.call(PYNAME[func], *ranges)
+            return out[0] == 'x' or not ref.matches(out[1], want, REL)
+        if deviates((7, 5)) or deviates((-7, -5)) or deviates((7, 0.5, -5)):
+            _BATTERY[func] = 'plain-numbers'
+        else:
+            _BATTERY[func] = '+'.join(name for name, v in PROBE_KINDS
+                                      if deviates((7, v, 5)) or deviates((-7, v, -5)))
+    return _BATTERY[func]
+
+
+def by_battery(head, func):
+    kinds = battery(func)
+    if kinds == 'plain-numbers':
+        return f'{head}/wrong-on-plain-numbers'
+    if kinds:
+        return f'{head}/affected-by-{kinds}-cells'
+    return None
+
+
+def fallback_tag(sc, q):
+    tag = input_tag(sc, q)
+    if tag not in ('mismatched-shapes', 'single-cell-ranges') and len(q.values) > 1 and q.func != 'SUMPRODUCT':
+        return 'several-range-arguments'
+    return tag
 
 
 def diagnose(sc, q, got, rel):
-    """name the deviation: the first alternative rule that reproduces the observed value.
-    A predicate over (function, input class, which wrong rule explains the value) - never the
-    numbers themselves."""
+    """mechanism key of a value that the reference model rejects: explicit predicates over the
+    function, the class of the input (errors present / shapes / single cells / integer size) and the
+    kind of answer (another error, errors ignored, the value of another function); for wrong numbers
+    on error-free input the probe battery names the kinds of cell that disturb the function.
+    Never the numbers themselves."""
     func = q.model_func()
     vals = q.values
     head = q.func.split(':')[0]
@@ -495,39 +531,33 @@ def diagnose(sc, q, got, rel):
                     'text' if any(isinstance(v, str) and v not in ERRORS for v in cells) else
                     'error' if errs else 'numbers')
             return f'SUMPRODUCT/single-cell-ranges/{kind}-cell'
-        if not errs:
-            want = ref.sumproduct(vals)
-            nums = [v for v in ref.cells_of(vals) if ref.is_numeric(v)]
-            if all(isinstance(v, int) for v in nums) and abs(want[1]) >= 2 ** 63:
-                return 'SUMPRODUCT/integer-result-beyond-int64'
-            for name, conv in ALT_FILTERS:
-                alt = ref.sumproduct(vals, conv=conv)
-                if alt[1] != want[1] and ref.matches(got, alt, rel):
-                    return f'SUMPRODUCT/{name}'
-        return f'SUMPRODUCT/wrong-value/{tag}'
-    if errs:
-        if isinstance(got, str) and got in errs:
-            return f'{head}/' + ('last-error-returned' if got == errs[-1] else 'not-the-first-error')
+        if errs:
+            return 'SUMPRODUCT/' + ('error-code-not-present-in-ranges' if isinstance(got, str)
+                                    else 'wrong-value/' + tag)
         if isinstance(got, str):
-            return f'{head}/error-code-not-present-in-range'
-        if ref.matches(got, ref.value(func, vals, pick='ignore'), rel):
-            return f'{head}/error-cells-ignored'
-        return f'{head}/wrong-value/{input_tag(sc, q)}'
-    want = ref.value(func, vals)
-    if head == 'SUBTOTAL':
+            return f'SUMPRODUCT/error-returned-for-error-free-ranges/{tag}'
+        want = ref.sumproduct(vals)
+        nums = [v for v in ref.cells_of(vals) if ref.is_numeric(v)]
+        if all(isinstance(v, int) for v in nums) and abs(want[1]) >= 2 ** 63:
+            return 'SUMPRODUCT/integer-result-beyond-int64'
+        return by_battery(head, func) or f'SUMPRODUCT/wrong-value/{tag}'
+    if errs and isinstance(got, str):
+        if got in errs:
+            return f'{head}/' + ('last-error-returned' if got == errs[-1] else 'not-the-first-error')
+        return f'{head}/error-code-not-present-in-range'
+    if errs and ref.matches(got, ref.value(func, vals, pick='ignore'), rel):
+        return f'{head}/error-cells-ignored'
+    if not errs and isinstance(got, str) and ref.numerics_in(vals):
+        return f'{head}/error-returned-for-error-free-range/{fallback_tag(sc, q)}'
+    if head == 'SUBTOTAL' and not errs:
         for other in ref.FUNCS:
-            if other != func and ref.matches(got, ref.value(other, vals), rel):
+            if other != func and ref.value(other, vals) != ref.value(func, vals) and \
+                    ref.matches(got, ref.value(other, vals), rel) and by_battery(head, func) is None:
                 return f'SUBTOTAL/code-{q.func.split(":")[1]}-computes-{other}'
-    for name, conv in ALT_FILTERS:
-        alt = ref.value(func, vals, conv=conv)
-        if alt != want and ref.matches(got, alt, rel):
-            return f'{head}/{name}'
-    if func == 'AVERAGE':
-        ncells = sum(1 for _ in ref.cells_of(vals))
-        s = ref.value('SUM', vals)
-        if ncells and ref.matches(got, ('n', s[1] / ncells, s[2] / ncells), REL):
-            return f'{head}/divides-by-cell-count'
-    tag = input_tag(sc, q)
+    named = by_battery(head, func)
+    if named:
+        return named
+    tag = fallback_tag(sc, q)
     if tag == 'nothing-numeric':
         return f'{head}/nothing-numeric-not-' + ('DIV0' if func == 'AVERAGE' else '0')
     return f'{head}/wrong-value/{tag}'
